@@ -534,6 +534,13 @@ func resetRun(t *testing.T, run *ev.Run, idx, nblocks int) {
 			run.Violation("reset:reopen-before-reset-failed", fmt.Sprint("run", idx), err.Error(), nil)
 			return
 		}
+		if target%2 == 0 {
+			// a slow disk: the first batch of the reset takes 40 ms to land; whatever
+			// the reset does meanwhile must wait for it (the order of what reaches
+			// the disk is what the crash prefixes below are cut from)
+			var once sync.Once
+			rep.Store.Stall = func() { once.Do(func() { time.Sleep(40 * time.Millisecond) }) }
+		}
 		var rerr error
 		func() {
 			defer func() {
@@ -543,6 +550,7 @@ func resetRun(t *testing.T, run *ev.Run, idx, nblocks int) {
 			}()
 			rerr = bc.Reset(uint32(target))
 		}()
+		rep.Store.Stall = nil
 		if rerr != nil {
 			run.Case(fmt.Sprintf("reset%d/to%d", idx, target), true)
 			run.Violation("reset:uninterrupted-reset-failed", fmt.Sprintf("reset%d/to%d", idx, target), rerr.Error(), map[string]any{"target": target, "height": nblocks})
